@@ -32,6 +32,8 @@ open NaijaVerif NaijaVerif.Analysis
 inductive Err where
   | rt (kind : Nat)
   | panic
+  /-- `Undefined variable`: a read of / store to a variable that has no slot (yet) -/
+  | unbound
   | fuel
 deriving DecidableEq, Repr
 
@@ -115,8 +117,10 @@ def assignEnv {V : Type} (id : Nat) (v : V) : List (List (Slot V)) → Option (L
     | some sc' => some (sc' :: scs)
     | none => (assignEnv id v scs).map (sc :: ·)
 
+/-- `define`: a new slot in the innermost scope (there always is one: every block pushes its own;
+with no scope at all the store is dropped). -/
 def defineEnv {V : Type} (id : Nat) (v : V) : List (List (Slot V)) → List (List (Slot V))
-  | [] => [[⟨id, v⟩]]
+  | [] => []
   | sc :: scs => (⟨id, v⟩ :: sc) :: scs
 
 def findFn (id : Nat) : List (List FnDef) → Option FnDef
@@ -125,12 +129,41 @@ def findFn (id : Nat) : List (List FnDef) → Option FnDef
     | some f => some f
     | none => findFn id scs
 
-/-- `hoist_block_functions` / `register_function`: definitions of this statement list the plan keeps. -/
-def hoist (cfg : Cfg) : List Stmt → List FnDef
+/-- `hoist_block_functions`: the definitions of this statement list.  `register_function` does not
+register a definition the plan removes; functions are only ever found by id (`lookup_func_by_id`),
+so "never registered" and "registered but invisible to the lookup" are the same thing
+(`findFn_filter` below) and the model applies `dropFn` at the lookup (`findFnC`).  That keeps the
+function scopes of a pruned and an unpruned run identical. -/
+def hoist : List Stmt → List FnDef
   | [] => []
-  | .fnDef _ _ ps (.mk body _) (some f) _ _ :: ss =>
-      if cfg.dropFn f then hoist cfg ss else { id := f, params := ps, body := body } :: hoist cfg ss
-  | _ :: ss => hoist cfg ss
+  | .fnDef _ _ ps (.mk body _) (some f) _ _ :: ss => { id := f, params := ps, body := body } :: hoist ss
+  | _ :: ss => hoist ss
+
+/-- `lookup_func_by_id` under a plan. -/
+def findFnC (cfg : Cfg) (id : Nat) (fns : List (List FnDef)) : Option FnDef :=
+  if cfg.dropFn id then none else findFn id fns
+
+/-- Looking `id` up in scopes from which the dropped definitions were filtered out (what the runtime
+does) is `findFnC`. -/
+theorem findFn_filter (drop : Nat → Bool) (id : Nat) : ∀ fns : List (List FnDef),
+    findFn id (fns.map (fun sc => sc.filter (fun f => !drop f.id))) =
+      if drop id then none else findFn id fns
+  | [] => by simp [findFn]
+  | sc :: scs => by
+      have ih := findFn_filter drop id scs
+      simp only [List.map_cons, findFn, ih]
+      have key : (sc.filter (fun f => !drop f.id)).find? (fun f => f.id == id) =
+          if drop id then none else sc.find? (fun f => f.id == id) := by
+        induction sc with
+        | nil => simp
+        | cons x xs ihx =>
+          by_cases hx : x.id = id
+          · subst hx
+            cases hd : drop x.id <;> simp [List.filter, List.find?, hd, ihx]
+          · have hx' : (x.id == id) = false := by simpa using hx
+            cases hd : drop x.id <;> simp [List.filter, List.find?, hd, hx', ihx]
+      rw [key]
+      cases drop id <;> simp
 
 /-- Root variable and index expressions of an l-value (`a`, `a[i]`, `a[i][j]`, …). -/
 def lvalue : Expr → Option (Nat × List Expr)
@@ -184,7 +217,7 @@ def finishNode (P : Prims V) (e : Expr) : R V (List V) → R V V
   | (.error er, st1) => (.error er, st1)
   | (.ok vs, st1) =>
       match readAll st1.env (interpIds e) with
-      | none => (.error .panic, st1)
+      | none => (.error .unbound, st1)
       | some rs => (P.node e (vs ++ rs), st1)
 
 mutual
@@ -193,7 +226,7 @@ mutual
     | _ + 1, .var _ b _, st =>
         match b.bind (fun id => lookupEnv id st.env) with
         | some v => (.ok v, st)
-        | none => (.error .panic, st)
+        | none => (.error .unbound, st)
     | n + 1, .binary .and l r _, st =>
         match evalExpr P cfg n l st with
         | (.error e, st1) => (.error e, st1)
@@ -225,7 +258,7 @@ mutual
           | none => (.error .panic, st)
           | some f =>
               let st0 := { st with looked := f :: st.looked }
-              match findFn f st0.fns with
+              match findFnC cfg f st0.fns with
               | none => (.error .panic, st0)
               | some fd =>
                   match evalList P cfg n args st0 with
@@ -255,7 +288,7 @@ mutual
                   | (.error e, st2) => (.error e, st2)
                   | (.ok pvs, st2) =>
                       match lookupEnv root st2.env with
-                      | none => (.error .panic, st2)
+                      | none => (.error .unbound, st2)
                       | some old =>
                           match P.mutMember field old pvs vs with
                           | .error e => (.error e, st2)
@@ -284,7 +317,7 @@ mutual
   def execBlock (P : Prims V) (cfg : Cfg) : Nat → List Stmt → St V → R V (Flow V)
     | 0, _, st => (.error .fuel, st)
     | n + 1, ss, st =>
-        let st1 := { st with env := [] :: st.env, fns := hoist cfg ss :: st.fns }
+        let st1 := { st with env := [] :: st.env, fns := hoist ss :: st.fns }
         match execStmts P cfg n ss st1 with
         | (r, st2) => (r, { st2 with env := st2.env.drop 1, fns := st2.fns.drop 1 })
 
@@ -317,7 +350,7 @@ mutual
         | (.ok v, st1) =>
             match b.bind (fun id => assignEnv id v st1.env) with
             | some env' => (.ok .normal, { st1 with env := env' })
-            | none => (.error .panic, st1)
+            | none => (.error .unbound, st1)
     | n + 1, .assignIndex t e _ _, st =>
         match evalExpr P cfg n e st with
         | (.error er, st1) => (.error er, st1)
@@ -329,7 +362,7 @@ mutual
                 | (.error er, st2) => (.error er, st2)
                 | (.ok pvs, st2) =>
                     match lookupEnv root st2.env with
-                    | none => (.error .panic, st2)
+                    | none => (.error .unbound, st2)
                     | some old =>
                         match P.setPath old pvs v with
                         | .error er => (.error er, st2)
